@@ -398,7 +398,7 @@ func (st *SimStream) Deliver() *DeliveredPack {
 
 func (st *SimStream) wants(e *REntry) bool {
 	switch e.Kind {
-	case "ins", "del":
+	case "ins", "del", "imp":
 		return e.Coll == st.Coll && e.Shard == st.Shard
 	case "createc", "dropc", "createp", "dropp":
 		return strings.Contains(st.VCh, fmt.Sprint(e.Coll))
@@ -482,6 +482,12 @@ func (m *SimMQ) buildMsg(st *SimStream, e *REntry) msgstream.TsMsg {
 			Base: mb(commonpb.MsgType_Delete), ShardName: st.VCh, DbName: db, CollectionName: name, PartitionName: e.PartName,
 			DbID: 1, CollectionID: e.Coll, PartitionID: pid, Timestamps: tsSlice(len(e.Rows), e.Ts), NumRows: int64(len(e.Rows)),
 			PrimaryKeys: PKsFor(e.Rows),
+		}}
+	}
+	if e.Kind == "imp" {
+		return &msgstream.ImportMsg{BaseMsg: base, ImportMsg: &msgpb.ImportMsg{
+			Base: mb(commonpb.MsgType_Import), DbName: db, CollectionName: name, CollectionID: e.Coll,
+			PartitionIDs: append([]int64(nil), e.Parts...), JobID: e.Tag,
 		}}
 	}
 	// DDL messages are shared between the vchannels of one pchannel
